@@ -14,11 +14,20 @@ WellTyped(e) == /\ e.ty \in {"date", "time", "ndt", "dt"}
                 /\ (e.ty # "time" => InDates(e.v.n))
                 /\ (e.ty # "date" => TimeOk(e.v))
                 /\ (e.ty = "dt" => e.v.off > -86400 /\ e.v.off < 86400)
+Spaces(k) == [i \in 1..k |-> 32]
+Padded(t, width, align) ==
+  LET fill == IF width > Len(t) THEN width - Len(t) ELSE 0
+      pre  == CASE align = "<" -> 0 [] align = ">" -> fill [] OTHER -> fill \div 2
+  IN Spaces(pre) \o t \o Spaces(fill - pre)
 Explains(e) ==
   /\ NoPanic(e)
   /\ \/ /\ e.op = "fmt" /\ WellTyped(e)
         /\ FormatExplains(e.f, ValueOf(e), e.r)
         /\ e.w = e.r                                   \* DelayedFormat::write_to and Display agree
+     \/ /\ e.op = "fmt_pad" /\ WellTyped(e)                 \* Display under a width flag pads by character count
+        /\ FormatExplains(e.f, ValueOf(e), e.t)
+        /\ (IF "ok" \in DOMAIN e.t THEN "ok" \in DOMAIN e.r /\ e.r.ok = Padded(e.t.ok, e.width, e.align)
+            ELSE "err" \in DOMAIN e.r)
      \/ /\ e.op = "fmt_items" /\ WellTyped(e)               \* format_with_items on an explicit item list
         /\ (IF Fails(e.items, ValueOf(e)) THEN "err" \in DOMAIN e.r
             ELSE "ok" \in DOMAIN e.r /\ MatchFrom(e.items, ValueOf(e), 1, e.r.ok, 1))
